@@ -102,6 +102,6 @@ int main(int argc, char **argv){
     compare(observe(*copy, probe), observe(src, probe), b, e, "after the same further operations on source and copy");
     fpsym_note("loaded_after_further_operations", src.getNumLoaded());
   }
-  if (model.symbolic && !os.outdep.empty()) fpsym_nonconst(os.outdep[0], "witness: observables depend on the symbols");
+  if (model.symbolic && !os.outdep.empty() && history != 3) fpsym_nonconst(os.outdep[0], "witness: observables depend on the symbols");
   fpsym_finish(); return 0;
 }
